@@ -84,6 +84,38 @@ Theorem C26_reencode_modulo_findings : forall v bs pk rest m,
       mochi_decode_packet (pk_version pk) (bs' ++ rest') = Ok (norm pk' rem, rest').
 Proof. exact reencode. Qed.
 
+(* The model's validity predicate for strings (codec.go validUTF8 = utf8.Valid and no NUL, modelled
+   in Wire.v) IS the specification: well-formed UTF-8 per RFC 3629 section 4 (SpecCodec.utf8_wf, the
+   ABNF alternatives one by one; surrogates, overlong forms and code points above U+10FFFF excluded)
+   without the null character [MQTT-1.5.4-1,2]. *)
+Theorem C26_utf8_is_spec : forall s, valid_utf8 s = utf8_wf s.
+Proof. exact valid_utf8_is_spec. Qed.
+
+(* special code points are well-formed strings — U+FFFD (EF BF BD, what lenient decoders substitute
+   for errors, but a valid character when sent literally), U+FEFF, U+0001, U+007F/0080, U+07FF/0800,
+   the noncharacters U+FFFE/U+FFFF, U+D7FF/U+E000 around the surrogates, U+10000, U+10FFFF — and
+   the ill-formed forms are not: surrogates, overlong encodings, truncated sequences, > U+10FFFF, NUL;
+   a PUBLISH with U+FFFD in topic and user property satisfies wf_packet and round-trips *)
+Example C26_special_code_points :
+  forallb valid_utf8 [[239;191;189]; [239;187;191]; [1]; [127]; [194;128]; [223;191]; [224;160;128];
+                      [239;191;190]; [239;191;191]; [237;159;191]; [238;128;128]; [240;144;128;128];
+                      [244;143;191;191]] = true /\
+  forallb (fun s => negb (valid_utf8 s))
+          [[237;160;128]; [237;191;191]; [192;128]; [193;191]; [224;128;128]; [224;159;191];
+           [240;128;128;128]; [240;143;191;191]; [194]; [226;130]; [240;159;152]; [128]; [191];
+           [244;144;128;128]; [245;128;128;128]; [255]; [0]; [97;0;98]] = true /\
+  let fffd := [239; 191; 189] in
+  let pk := set_pk_props (set_user [(fffd, fffd)] props0)
+            (set_pk_payload [104] (set_pk_topic fffd (fresh_packet 5 (mkfh 0 PUBLISH 0 false false)))) in
+  wf_packet pk = true /\
+  exists bs q, mochi_encode pk = Ok bs /\ mochi_decode_packet 5 bs = Ok (q, []) /\
+               pk_topic q = fffd /\ p_user (pk_props q) = [(fffd, fffd)].
+Proof.
+  split; [vm_compute; reflexivity|]. split; [vm_compute; reflexivity|]. cbv zeta.
+  split; [vm_compute; reflexivity|]. eexists. eexists.
+  split; [vm_compute; reflexivity|]. split; [vm_compute; reflexivity|]. split; reflexivity.
+Qed.
+
 (* Known finding KF_C26_pid0: the decoder accepts a packet identifier 0 where one is required; the
    encoder refuses such a packet, so these accepted byte strings cannot be re-encoded. *)
 Theorem C26_reencode_refuted :
@@ -119,3 +151,4 @@ Print Assumptions C26_encoder_refuses_only_pid0.
 Print Assumptions C26_decoded_wellformed.
 Print Assumptions C26_reencode_modulo_findings.
 Print Assumptions C26_reencode_refuted.
+Print Assumptions C26_utf8_is_spec.
